@@ -73,10 +73,19 @@ def check_round_trip(name="everything", extra_type_names=()):
     try:
         open(os.path.join(d, "schema.graphql"), "w").write(sdl)
         source = G.build_schema(sdl)
+        # the same schema as a directory of files: the first ends in a comment without a newline, the second adds a documented type
+        os.makedirs(os.path.join(d, "schema_dir", "sub"))
+        extra = '"""described in the second file"""\ntype FromSecondFile { note: String }'
+        open(os.path.join(d, "schema_dir", "a_main.graphql"), "w").write(sdl.rstrip() + "\n# end of the first file")
+        open(os.path.join(d, "schema_dir", "sub", "b_more.graphqls"), "w").write(extra)
+        source_dir = G.build_schema(sdl + "\n" + extra)
         # every accepted file type, in the spellings the settings accept (the type is case-insensitive)
+        single = source
         for target, var, tmv in (("out.py", "mySchema", "TYPES_map"), ("out.graphql", "schema", "type_map"), ("UPPER.PY", "schema", "type_map"),
-                                 ("Mixed.Gql", "schema", "type_map")):
-            cfg = dict(schema_path=os.path.join(d, "schema.graphql"), target_file_path=os.path.join(d, target),
+                                 ("Mixed.Gql", "schema", "type_map"), ("from_dir.py", "schema", "type_map"), ("from_dir.graphql", "schema", "type_map")):
+            from_dir = target.startswith("from_dir")
+            source = source_dir if from_dir else single
+            cfg = dict(schema_path=os.path.join(d, "schema_dir" if from_dir else "schema.graphql"), target_file_path=os.path.join(d, target),
                        schema_variable_name=var, type_map_variable_name=tmv, plugins=[])
             try:
                 with contextlib.redirect_stdout(io.StringIO()):
